@@ -310,7 +310,13 @@ impl TmplGroup {
             Ok(())
         })
         .unwrap();
-        w.finish() + self.extra_runtime_string.as_str()
+        let mut ret = w.finish();
+        if self.extra_runtime_string.len() > 0 {
+            // the last runtime statement is not terminated
+            ret.push(';');
+            ret.push_str(self.extra_runtime_string.as_str());
+        }
+        ret
     }
 
     /// Output js runtime environment js var name list.
